@@ -187,9 +187,10 @@ pub fn estimate_add_policy(token_blocks: &[PreflateTokenBlock]) -> DictionaryAdd
     } else if !last_outside_32k_seen {
         DictionaryAddPolicy::AddFirstWith32KBoundary
     } else if max_length_last_add < max_length {
-        DictionaryAddPolicy::AddFirstAndLast(max_length_last_add as u16)
+        // the limit is transported in an 8 bit field of the parameter header
+        DictionaryAddPolicy::AddFirstAndLast(std::cmp::min(max_length_last_add, 255) as u16)
     } else if max_length < 258 {
-        DictionaryAddPolicy::AddFirst(max_length as u16)
+        DictionaryAddPolicy::AddFirst(std::cmp::min(max_length, 255) as u16)
     } else {
         DictionaryAddPolicy::AddAll
     }
